@@ -355,6 +355,7 @@ def C13(F, rep, tier, cx):
     RF.A1(F, rep, cx.FL)                          # good()/eof() report the queue's state, read() hands the caller what the queue returned
     RF.M1(F, rep, cx.R)                           # close() recognises the session open() started, whatever companion flags the mode carries
     RF.O6(F, rep, cx.R)                           # ... and finds it still open: no worker closes the file
+    RF.S1e(F, rep, cx.FL)                         # a worker caught by close() inside the signature search leaves it on the failed stream (fix 4842e88)
 
 
 def C14(F, rep, tier, cx):
